@@ -496,11 +496,11 @@ theorem C40_every (cfg : Cfg) (verb : List Char) (base : Headers) (later : List 
     exact hstamp
   · exact hstamp
 
-/-- **C40_probe** — the client's probe applied to the advertised headers reads the configuration back -/
-theorem C40_probe (cfg : Cfg) (hecho : ∀ n ∈ cfg.stickyEcho, Spec.TokenName n) :
-    probe (capHeaders cfg) = Spec.capsOf cfg := by
-  have g : ∀ h ∈ Spec.capNames, getHdr (capHeaders cfg) h = Spec.expected cfg h := by
-    intro h hh; rw [Aux.getHdr_capHeaders cfg h hh, C40_exact]
+/-- the probe reads the configuration back from *any* header set on which every capability header has its
+    documented value under case-insensitive lookup -/
+theorem probe_of_expected (cfg : Cfg) (hs : Headers)
+    (g : ∀ h ∈ Spec.capNames, getHdr hs h = Spec.expected cfg h)
+    (hecho : ∀ n ∈ cfg.stickyEcho, Spec.TokenName n) : probe hs = Spec.capsOf cfg := by
   have m : ∀ {h}, h ∈ Spec.capNames → h ∈ Spec.capNames := id
   unfold probe Spec.capsOf
   congr 1
@@ -547,6 +547,113 @@ theorem C40_probe (cfg : Cfg) (hecho : ∀ n ∈ cfg.stickyEcho, Spec.TokenName 
         simp only [commaSpace] at h1 h2
         simp [h1, h2]
 
+/-- **C40_probe** — the client's probe applied to the advertised headers reads the configuration back -/
+theorem C40_probe (cfg : Cfg) (hecho : ∀ n ∈ cfg.stickyEcho, Spec.TokenName n) :
+    probe (capHeaders cfg) = Spec.capsOf cfg :=
+  probe_of_expected cfg (capHeaders cfg)
+    (fun h hh => by rw [Aux.getHdr_capHeaders cfg h hh, C40_exact]) hecho
+
+/-! ### the probe on a whole response -/
+
+namespace Aux
+
+theorem ofNat_add32_toNat : ∀ n < 91, 65 ≤ n → (Char.ofNat (n + 32)).toNat = n + 32 := by decide
+
+theorem asciiLower_idem (c : Char) : asciiLower (asciiLower c) = asciiLower c := by
+  have e : ∀ d : Char, ¬ (65 ≤ d.toNat ∧ d.toNat ≤ 90) → asciiLower d = d :=
+    fun d hd => by unfold asciiLower; rw [if_neg hd]
+  by_cases h : 65 ≤ c.toNat ∧ c.toNat ≤ 90
+  · have h1 : (asciiLower c).toNat = c.toNat + 32 := by
+      unfold asciiLower; rw [if_pos h]; exact ofNat_add32_toNat _ (by omega) h.1
+    exact e _ (by omega)
+  · rw [e c h, e c h]
+
+theorem lower_idem (s : List Char) : lower (lower s) = lower s := by
+  unfold lower
+  rw [List.map_map]
+  apply List.map_congr_left
+  intro c _
+  exact asciiLower_idem c
+
+/-- header names as Falcon's `resp` keeps them: already lower-cased -/
+def LowerKeys (hs : Headers) : Prop := ∀ p ∈ hs, lower p.1 = p.1
+
+theorem getHdr_eq_respGet (hs : Headers) (hk : LowerKeys hs) (name : List Char) :
+    getHdr hs name = respGet hs name := by
+  unfold getHdr respGet lookupExact
+  rw [find_congr hs (fun p => lower p.1 == lower name) (fun p => p.1 == lower name)
+    (fun p hp => by show (lower p.1 == lower name) = (p.1 == lower name); rw [hk p hp])]
+
+theorem setHeader_mem (hs : Headers) (k v : List Char) (p : List Char × List Char)
+    (hp : p ∈ setHeader hs k v) : p ∈ hs ∨ p = (k, v) := by
+  induction hs with
+  | nil => simp only [setHeader, List.mem_singleton] at hp; exact Or.inr hp
+  | cons q r ih =>
+    obtain ⟨k', v'⟩ := q
+    simp only [setHeader] at hp
+    split at hp
+    · rcases List.mem_cons.mp hp with h | h
+      · exact Or.inr h
+      · exact Or.inl (List.mem_cons_of_mem _ h)
+    · rcases List.mem_cons.mp hp with h | h
+      · exact Or.inl (h ▸ List.mem_cons_self ..)
+      · rcases ih h with h | h
+        · exact Or.inl (List.mem_cons_of_mem _ h)
+        · exact Or.inr h
+
+theorem respSet_lower (hs : Headers) (k v : List Char) (hk : LowerKeys hs) : LowerKeys (respSet hs k v) := by
+  intro p hp
+  rcases setHeader_mem hs (lower k) v p hp with h | h
+  · exact hk p h
+  · subst h; exact lower_idem k
+
+theorem applyOp_lower (hs : Headers) (op : Op) (hk : LowerKeys hs) : LowerKeys (applyOp hs op) := by
+  cases op with
+  | set k v => exact respSet_lower hs k v hk
+  | append k v =>
+    simp only [applyOp]
+    split
+    · exact respSet_lower hs k _ hk
+    · exact respSet_lower hs k _ hk
+  | delete k => exact fun p hp => hk p (List.mem_filter.mp hp).1
+
+theorem later_lower (later : List Op) (hs : Headers) (hk : LowerKeys hs) : LowerKeys (later.foldl applyOp hs) := by
+  induction later generalizing hs with
+  | nil => exact hk
+  | cons op r ih => exact ih _ (applyOp_lower hs op hk)
+
+theorem stampFold_lower (caps : Headers) (hs : Headers) (hk : LowerKeys hs) :
+    LowerKeys (caps.foldl (fun acc kv => respSet acc kv.1 kv.2) hs) := by
+  induction caps generalizing hs with
+  | nil => exact hk
+  | cons kv r ih => exact ih _ (respSet_lower hs kv.1 kv.2 hk)
+
+theorem respond_lower (cfg : Cfg) (verb : List Char) (base : Headers) (later : List Op) (hk : LowerKeys base) :
+    LowerKeys (respond cfg verb base later) := by
+  unfold respond
+  apply later_lower
+  unfold stamp
+  simp only []
+  split
+  · exact respSet_lower _ _ _ (stampFold_lower _ _ hk)
+  · exact stampFold_lower _ _ hk
+
+end Aux
+
+/-- **C40_probe_response** — the probe applied to the headers of *any* response of the server (any verb, any responder /
+    error output `base` as Falcon keeps it, i.e. keyed by lower-cased names, any later hooks that leave capability
+    headers alone) reads the configuration back: server stamp and client probe compose end to end -/
+theorem C40_probe_response (cfg : Cfg) (verb : List Char) (base : Headers) (later : List Op)
+    (hlow : Aux.LowerKeys base)
+    (hbase : ∀ p ∈ base, p.1 ∉ Aux.capNamesLower)
+    (hlater : ∀ op ∈ later, lower op.name ∉ Aux.capNamesLower)
+    (hecho : ∀ n ∈ cfg.stickyEcho, Spec.TokenName n) :
+    probe (respond cfg verb base later) = Spec.capsOf cfg :=
+  probe_of_expected cfg _
+    (fun h hh => by
+      rw [Aux.getHdr_eq_respGet _ (Aux.respond_lower cfg verb base later hlow) h]
+      exact C40_every cfg verb base later hbase hlater h hh) hecho
+
 /-! ### non-vacuity -/
 
 def exampleCfg : Cfg :=
@@ -572,5 +679,17 @@ example : ∀ n ∈ exampleCfg.stickyEcho, Spec.TokenName n := by
 /-- a 401 carrying `WWW-Authenticate`, followed by a CORS hook: the capability headers are still exactly the configured ones -/
 example : respGet (respond exampleCfg ['P', 'O', 'S', 'T'] [(['w', 'w', 'w', '-', 'a', 'u', 't', 'h', 'e', 'n', 't', 'i', 'c', 'a', 't', 'e'], ['B'])]
       [.set ['V', 'a', 'r', 'y'] ['O']]) Spec.hStickyEchoHeaders = some ['X', '-', 'A', ',', ' ', 'f', 'l', 'y'] := by decide
+
+/-- non-vacuity of `C40_probe_response`: the same 401 + CORS response, read by the client's probe -/
+example : probe (respond exampleCfg ['P', 'O', 'S', 'T'] [(['w', 'w', 'w', '-', 'a', 'u', 't', 'h', 'e', 'n', 't', 'i', 'c', 'a', 't', 'e'], ['B'])]
+      [.set ['V', 'a', 'r', 'y'] ['O']]) = Spec.capsOf exampleCfg :=
+  C40_probe_response exampleCfg _ _ _
+    (by intro p hp; simp only [List.mem_singleton] at hp; subst hp; decide)
+    (by intro p hp; simp only [List.mem_singleton] at hp; subst hp; decide)
+    (by intro op ho; simp only [List.mem_singleton] at ho; subst ho; decide)
+    (by
+      intro n hn
+      simp only [exampleCfg, List.mem_cons, List.mem_nil_iff, or_false] at hn
+      rcases hn with rfl | rfl <;> exact ⟨by decide, by decide⟩)
 
 end VgiVerif.C40
